@@ -725,7 +725,10 @@ impl<'r> Gen<'r> {
                 let a = self.str_expr(need_local, depth + 1);
                 let pat = *self.r.pick(&["a", "b", "[0-9]+", "é", "[a-z]"]);
                 let rep = *self.r.pick(&["A", "_", ""]);
-                Expr::Call("replace".into(), vec![a, Expr::Str(pat.into()), Expr::Str(rep.into())])
+                // a third of the replacements are computed (a global, a scoped variable, ...), so
+                // that calls can agree on text and pattern and differ in the replacement only
+                let rep_e = if self.r.chance(1, 3) { self.str_expr(need_local, depth + 1) } else { Expr::Str(rep.into()) };
+                Expr::Call("replace".into(), vec![a, Expr::Str(pat.into()), rep_e])
             }
         }
     }
